@@ -19,28 +19,46 @@ fn db<S: Src>(s: &mut S, ug: f32, gn: f32, uf: f32) -> (ConsDb, bool, bool) {
 }
 
 harnesses! {
-    /// U_w = fround2((1 + dU/100) * (Ff*Uf + (1-Ff)*Ug)) for every finite input; None when glazing or frame is missing
+    /// U_w = fround2((1 + dU/100) * (Ff*Uf + (1-Ff)*Ug)); g_gl;wi = fround2(0.90 * g_n)  (grid, mirror oracle)
     #[kani::unwind(4)]
     #[kani::stub(alloc::fmt::format, crate::stubs::fmt_stub)]
     #[kani::stub(f32::round, crate::stubs::round_stub)]
-    fn win_u_mirror(s) {
-        let (ug, uf, gn) = (s.fin(0.0, 20.0), s.fin(0.0, 20.0), s.fin(0.0, 1.0));
-        let (ff, du) = (s.fin(0.0, 1.0), s.fin(0.0, 50.0));
-        let (db, hg, hf) = db(s, ug, gn, uf);
-        let user = if s.bool() { Some(s.fin(0.0, 1.0)) } else { None };
-        let wc = WinCons { id: uid(5), name: String::new(), glass: uid(1), frame: uid(2), f_f: ff, delta_u: du, g_glshwi: user, c_100: 27.0 };
+    fn win_u_formula(s) {
+        let (ug, uf, gn) = (s.g(23) * 0.25, s.g(23) * 0.25, s.g(8) * 0.125);
+        let ff = s.g(8) * 0.125;
+        let du = match s.below(4) { 0 => 0.0, 1 => 10.0, 2 => 25.0, _ => 50.0 };
+        let mut db = ConsDb::default();
+        db.glasses.push(Glass { id: uid(1), name: String::new(), u_value: ug, g_gln: gn });
+        db.frames.push(Frame { id: uid(2), name: String::new(), u_value: uf, absorptivity: 0.5 });
+        let wc = WinCons { id: uid(5), name: String::new(), glass: uid(1), frame: uid(2), f_f: ff, delta_u: du, g_glshwi: None, c_100: 27.0 };
+        cover!(du == 10.0 && ff == 0.25 && ug != uf, "non-trivial mix");
+        assert!(wc.u_value(&db) == Some(fround2((1.0 + du / 100.0) * (uf * ff + ug * (1.0 - ff)))), "C07:U = (1+dU/100)*(Ff*Uf + (1-Ff)*Ug) to two decimals");
+        assert!(wc.g_glwi(&db) == Some(fround2(gn * 0.90)), "C07:g_gl;wi = 0.90 * g_gl;n");
+        assert!(wc.g_glshwi(&db) == wc.g_glwi(&db), "C07:shaded factor is the unshaded factor when no user value is given");
+        std::mem::forget(db);
+        std::mem::forget(wc);
+    }
+
+    /// lookups by id (decoys first), missing glazing / frame, user shading factor (concrete numbers, symbolic presence)
+    #[kani::unwind(4)]
+    #[kani::stub(alloc::fmt::format, crate::stubs::fmt_stub)]
+    #[kani::stub(f32::round, crate::stubs::round_stub)]
+    fn win_lookup(s) {
+        let (db, hg, hf) = db(s, 2.0, 0.5, 4.0);
+        let user = if s.bool() { Some(0.375) } else { None };
+        let wc = WinCons { id: uid(5), name: String::new(), glass: uid(1), frame: uid(2), f_f: 0.25, delta_u: 0.0, g_glshwi: user, c_100: 27.0 };
         let u = wc.u_value(&db);
         let g = wc.g_glwi(&db);
         let gs = wc.g_glshwi(&db);
-        cover!(hg && hf && u.is_some(), "glazing and frame resolve");
-        cover!(!hg && hf, "glazing missing");
+        cover!(hg && hf, "glazing and frame resolve");
+        cover!(!hg && user.is_some(), "user shading factor with a missing glazing");
         if hg && hf {
-            assert!(u == Some(fround2((1.0 + du / 100.0) * (uf * ff + ug * (1.0 - ff)))), "C07:U = (1+dU/100)*(Ff*Uf + (1-Ff)*Ug) to two decimals");
+            assert!(u == Some(fround2((1.0 + 0.0 / 100.0) * (4.0 * 0.25 + 2.0 * (1.0 - 0.25)))), "C07:U uses the glazing and frame found by id");
         } else {
             assert!(u.is_none(), "C07:no U-value when glazing or frame is missing");
         }
         if hg {
-            assert!(g == Some(fround2(gn * 0.90)), "C07:g_gl;wi = 0.90 * g_gl;n");
+            assert!(g == Some(fround2(0.5 * 0.90)), "C07:g_gl;wi uses the glazing found by id");
         } else {
             assert!(g.is_none(), "C07:no solar factor without glazing");
         }
